@@ -21,6 +21,9 @@
 (*   LClean     one iteration of `for future in pending_responses.values()` *)
 (*   LCleanEnd  pending_responses.clear(), listener task ends               *)
 (*   LWake      the caller's coroutine resumes, call() returns / raises     *)
+(*   a delivered acknowledgement of a close request (or a close request     *)
+(*   sent by the peer) ends the listener like LEof, with the close          *)
+(*   exception as the error of the other pending calls                      *)
 (* Peer:                                                                    *)
 (*   PRespond, PFail (server-side evaluation failed: connection torn down), *)
 (*   PCut (connection lost; possibly inside a response frame)               *)
@@ -33,7 +36,9 @@
 (***************************************************************************)
 EXTENDS Integers, Sequences, FiniteSets, TLC, Json
 
-CONSTANTS Callers, SnapshotCleanup, RecordHist
+CONSTANTS Callers, SnapshotCleanup, RecordHist, PeerCloses,
+          Closers        \* callers that run close(): their request is KGRemoteCloseConnection, whose acknowledgement makes the
+                         \* listener stop (running = False) and fail every other pending call
 
 A == INSTANCE IpcCallAbs
 
@@ -112,15 +117,24 @@ LDrained(c) ==
   /\ Rec([a |-> "ldrained", c |-> c], <<>>)
   /\ UNCHANGED <<fut, val, pend, loopq, ncw, lst, todo, size0, answered, resp, eof>>
 
+\* the listener stops after this frame: KGRemoteCloseConnectionException -> _run: running = False, writer = None, cleanup
+StopsListener(id) == id \in Closers \/ id = 0
 LDeliver ==
   /\ LoopFree /\ lst = "listening" /\ resp # <<>> /\ Head(resp).full
-  /\ LET id == Head(resp).id IN
-     /\ resp' = Tail(resp)
-     /\ IF id \in pend
-        THEN pend' = pend \ {id} /\ fut' = [fut EXCEPT ![id] = "value"] /\ val' = [val EXCEPT ![id] = id]
-        ELSE UNCHANGED <<pend, fut, val>>
+  /\ LET id == Head(resp).id
+         hit == id \in pend
+         pend1 == IF hit THEN pend \ {id} ELSE pend
+         fut1 == IF hit THEN [fut EXCEPT ![id] = "value"] ELSE fut IN
+     /\ val' = IF hit THEN [val EXCEPT ![id] = id] ELSE val
+     /\ IF StopsListener(id) /\ (hit \/ id = 0)
+        THEN /\ ncw' = FALSE /\ resp' = <<>>
+             /\ IF SnapshotCleanup
+                THEN /\ fut' = [c \in Callers |-> IF c \in pend1 /\ fut1[c] = "pending" THEN "exc" ELSE fut1[c]]
+                     /\ pend' = {} /\ lst' = "exited" /\ UNCHANGED <<todo, size0>>
+                ELSE /\ lst' = "cleaning" /\ todo' = pend1 /\ size0' = Cardinality(pend1) /\ fut' = fut1 /\ pend' = pend1
+        ELSE /\ resp' = Tail(resp) /\ pend' = pend1 /\ fut' = fut1 /\ UNCHANGED <<ncw, lst, todo, size0>>
      /\ Rec([a |-> "ldeliver", id |-> id], <<>>)
-  /\ UNCHANGED <<cpc, loopq, ncw, lst, todo, size0, wire, answered, eof>>
+  /\ UNCHANGED <<cpc, loopq, wire, answered, eof>>
 
 \* end of stream (possibly inside a frame): IncompleteReadError -> KlongIPCConnectionFailureException
 LEof ==
@@ -172,7 +186,15 @@ PCut(c, partial) ==
   /\ Rec([a |-> "pcut", c |-> c, partial |-> partial], <<>>)
   /\ UNCHANGED <<cpc, fut, val, pend, loopq, ncw, lst, todo, size0, wire>>
 
-Next == \/ \E c \in Callers : CCheck(c) \/ CRegister(c) \/ CSchedule(c) \/ LClean(c) \/ LWake(c) \/ PRespond(c) \/ LDrained(c)
+\* the peer asks to close the connection (a request, id 0: no caller waits for it)
+PCloseReq ==
+  /\ ~eof /\ \A k \in 1..Len(resp) : resp[k].id # 0
+  /\ resp' = Append(resp, [id |-> 0, full |-> TRUE])
+  /\ Rec([a |-> "pclosereq"], <<>>)
+  /\ UNCHANGED <<cpc, fut, val, pend, loopq, ncw, lst, todo, size0, wire, answered, eof>>
+
+Next == \/ PeerCloses /\ PCloseReq
+        \/ \E c \in Callers : CCheck(c) \/ CRegister(c) \/ CSchedule(c) \/ LClean(c) \/ LWake(c) \/ PRespond(c) \/ LDrained(c)
         \/ \E c \in Callers, blk \in BOOLEAN : LSend(c, blk)
         \/ LDeliver \/ LEof \/ LCleanEnd
         \/ \E c \in Callers, p \in BOOLEAN : PCut(c, p)
